@@ -174,3 +174,26 @@ Section UIds.
     rewrite Hl. reflexivity.
   Qed.
 End UIds.
+
+(* the objects met for the first time ARE the model's unique_objs (the tensors at the first-occurrence positions) *)
+From XV Require Import Model.PureFn Proofs.PackerProofs.
+
+Lemma uniq_new_select l : forall i seen n,
+  uniq_new l seen n = map (fun j => nth (j - i) l 0%nat) (fst (uniq_go l i seen n)).
+Proof.
+  induction l as [|x r IH]; intros i seen n; [reflexivity|]. cbn [uniq_new uniq_go].
+  destruct (lookup x seen).
+  - rewrite (IH (S i) seen n).
+    pose proof (uniq_go_idx_range r (S i) seen n) as Hr. destruct (uniq_go r (S i) seen n) as [ui inv]. cbn [fst] in *.
+    apply map_ext_in. intros j Hj. specialize (Hr j Hj). replace (j - i)%nat with (S (j - S i)) by lia. reflexivity.
+  - rewrite (IH (S i) ((x, n) :: seen) (S n)).
+    pose proof (uniq_go_idx_range r (S i) ((x, n) :: seen) (S n)) as Hr.
+    destruct (uniq_go r (S i) ((x, n) :: seen) (S n)) as [ui inv]. cbn [fst map] in *.
+    rewrite Nat.sub_diag. cbn [nth]. f_equal.
+    apply map_ext_in. intros j Hj. specialize (Hr j Hj). replace (j - i)%nat with (S (j - S i)) by lia. reflexivity.
+Qed.
+
+Theorem uniq_new_is_unique_objs ids : uniq_new ids [] 0 = unique_objs ids.
+Proof.
+  unfold unique_objs, uniq_ids, select. rewrite (uniq_new_select ids 0 [] 0). apply map_ext. intros j. rewrite Nat.sub_0_r. reflexivity.
+Qed.
